@@ -201,6 +201,7 @@ class Peer:
 
         self.fsm_runner: FSMRunner = FSMRunner()
         self._async_task: asyncio.Task[None] | None = None  # For async mode
+        self._read_task: asyncio.Future[Message] | None = None  # read of the next message, kept across timeouts
 
         # The peer should restart after a stop
         self._restart: bool = True
@@ -638,6 +639,30 @@ class Peer:
             or self.neighbor.eor
         )
 
+    async def _read_message_or_nop(self) -> Message:
+        """Return the next message, or NOP when none is complete within 100 ms.
+
+        The read is not cancelled when the wait times out: it is kept and awaited again by the next
+        call.  A cancelled read loses the bytes it already took from the socket (a header, or the
+        first segments of a large UPDATE) and the stream is then read from the middle of a message.
+        """
+        assert self.proto is not None
+        task = getattr(self, '_read_task', None)
+        if task is None:
+            task = asyncio.ensure_future(self.proto.read_message())
+            self._read_task = task
+        done, _ = await asyncio.wait({task}, timeout=0.1)
+        if not done:
+            return _NOP
+        self._read_task = None
+        return task.result()
+
+    def _cancel_read(self) -> None:
+        task = getattr(self, '_read_task', None)
+        self._read_task = None
+        if task is not None and not task.done():
+            task.cancel()
+
     async def _main(self) -> int:
         """Main BGP message processing loop using async I/O.
 
@@ -718,10 +743,8 @@ class Peer:
                     self._neighbor = None
 
                 # Read message with timeout
-                try:
-                    message = await asyncio.wait_for(self.proto.read_message(), timeout=0.1)
-                except asyncio.TimeoutError:
-                    message = _NOP
+                message = await self._read_message_or_nop()
+                if message is _NOP:
                     await asyncio.sleep(0)
 
                 # Keepalive handling
@@ -765,6 +788,8 @@ class Peer:
         except Exception as exc:
             log.error(lazyexc('async.mainloop.exception error={exc}', exc), self.id())
             raise
+        finally:
+            self._cancel_read()
 
         # Graceful restart handling
         log.debug(
